@@ -140,5 +140,7 @@ EmitTR == \/ EmitMode # "tr"
                                     rows |-> IF op'.name = "write" THEN rows' ELSE <<>>,
                                     sg |-> IF op'.name \in {"export", "write"} THEN sg' ELSE <<>>,
                                     sgin |-> IF op'.name \in {"import", "load"} THEN sg ELSE <<>>,
-                                    back |-> back'])>>)
+                                    back |-> back',
+                                    \* the converted list after update_coordinates (stopgap2emmotl(..., update_coordinates=True))
+                                    backu |-> [i \in 1..Len(back') |-> UpdateP(back'[i])]])>>)
 =============================================================================
